@@ -1111,7 +1111,8 @@ def run(ck: Ck) -> None:
     # the constant tables of the C03 tokenizer model (Text/TokGen.v over Gen/EscTables_gen.v, C02's translator): the
     # refinement theorem kv_lexer_refines_tokenizer is instantiated for them
     ok_t = ck.translate('EscTables_gen', c02_tables.translate) and ok_t
-    built = ok_t and ck.build(['Gen/KVSer_gen.vo', 'Gen/EscTables_gen.vo', 'Text/TokGen.vo', 'Props/C01.vo'])
+    # KV/KvEnum.vo is used by the correspondences only (no theorem depends on it): name it explicitly
+    built = ok_t and ck.build(['Gen/KVSer_gen.vo', 'Gen/EscTables_gen.vo', 'Text/TokGen.vo', 'KV/KvEnum.vo', 'Props/C01.vo'])
     if built:
         ck.theorems('Props/C01.v')
         noraw = '(fun t => forallb (fun p => match p with PRaw _ | POther => false | _ => true end) t)'
